@@ -91,12 +91,23 @@ pub struct T2 {
     pub cfg: Cfg,
     pub name: String,
     pub max_rto: usize,
+    /// The application reads as late as possible: only when nothing can be delivered or written
+    /// (so the 64 KiB receive buffer fills up, possibly in the middle of a segment).
+    pub lazy_reader: bool,
 }
 
 /// Enabled actions in default-priority order: index 0 is what a loss-free, eager, FIFO world does.
-fn prioritized(sys: &Sys, cfg: &Cfg) -> Vec<Act> {
+fn prioritized(sys: &Sys, cfg: &Cfg, lazy_reader: bool) -> Vec<Act> {
     let acts = sys.actions(cfg);
     let mut out = vec![];
+    // 0. an eager application reads as soon as something is readable
+    if !lazy_reader {
+        for s in [B, A] {
+            if acts.contains(&Act::Read(s)) {
+                out.push(Act::Read(s));
+            }
+        }
+    }
     // 1. deliver the oldest segment (towards B first, then towards A)
     for d in [B, A] {
         if acts.contains(&Act::Deliver(d, 0)) {
@@ -107,6 +118,14 @@ fn prioritized(sys: &Sys, cfg: &Cfg) -> Vec<Act> {
     for s in [A, B] {
         if acts.contains(&Act::Write(s)) {
             out.push(Act::Write(s));
+        }
+    }
+    // 2b. a lazy application reads only now
+    if lazy_reader && out.is_empty() {
+        for s in [B, A] {
+            if acts.contains(&Act::Read(s)) {
+                out.push(Act::Read(s));
+            }
         }
     }
     // 3. timers only when nothing else is enabled by default
@@ -135,7 +154,7 @@ impl Scenario for T2 {
         let mut viols = vec![];
         let mut steps = 0u64;
         loop {
-            let acts = prioritized(&sys, cfg);
+            let acts = prioritized(&sys, cfg, self.lazy_reader);
             // stop when only budgeted timer actions are left and nothing is in flight
             let only_timers = acts
                 .iter()
@@ -207,7 +226,7 @@ pub fn t1_cfg(tier: &str) -> Vec<(String, Cfg)> {
     v
 }
 
-pub fn t2_cfgs(tier: &str) -> Vec<(String, Cfg, usize)> {
+pub fn t2_cfgs(tier: &str) -> Vec<(String, Cfg, usize, bool)> {
     let mut v = vec![];
     let sizes: &[(u16, usize, usize)] = if tier == "quick" {
         &[(100, 51, 120), (1500, 1451, 51), (1500, 70_000, 0)]
@@ -240,7 +259,36 @@ pub fn t2_cfgs(tier: &str) -> Vec<(String, Cfg, usize)> {
         } else {
             3
         };
-        v.push((format!("T2 mtu{mtu} w[{wa}|{wb}] drop2 dup1 tick3"), c, d));
+        v.push((format!("T2 mtu{mtu} w[{wa}|{wb}] drop2 dup1 tick3"), c.clone(), d, false));
+        if big {
+            // the same transfer with an application that reads as late as possible
+            let mut l = c.clone();
+            l.auto_read = false;
+            l.ticks = [6, 6];
+            v.push((format!("T2 mtu{mtu} w[{wa}|{wb}] drop2 dup1 tick6, late reader"), l, if tier == "quick" { 1 } else { 2 }, true));
+        }
+    }
+    {
+        // 70 writes of 1000 bytes, acknowledged as they go (the sender is never window-limited),
+        // read as late as possible: the 65535-byte buffer fills in the middle of segment 66, whose
+        // retransmission must later be trimmed at the front
+        let mut l = Cfg::basic(1050, 100, 300);
+        l.writes = [vec![1000; 70], vec![]];
+        l.drops = 1;
+        l.dups = 1;
+        l.ticks = [6, 6];
+        l.auto_read = false;
+        v.push(("T2 mtu1050 w[70 x 1000|0] drop1 dup1 tick6, late reader".to_string(), l, if tier == "quick" { 1 } else { 2 }, true));
+    }
+    if tier != "quick" {
+        // 1000-byte segments: 65535 is not a multiple, the buffer fills inside segment 66
+        let mut l = Cfg::basic(1050, 100, 300);
+        l.writes = [vec![70_000], vec![]];
+        l.drops = 1;
+        l.dups = 1;
+        l.ticks = [6, 6];
+        l.auto_read = false;
+        v.push(("T2 mtu1050 w[70000|0] drop1 dup1 tick6, late reader".to_string(), l, 1, true));
     }
     v
 }
@@ -262,11 +310,12 @@ pub fn run(report: &mut Report, tier: &str) {
         let st = search::run_into(&m, &limits, report);
         all_fixpoint &= st.fixpoint;
     }
-    for (name, cfg, d) in t2_cfgs(tier) {
+    for (name, cfg, d, lazy_reader) in t2_cfgs(tier) {
         let s = T2 {
             cfg,
             name,
             max_rto: 8,
+            lazy_reader,
         };
         let b = Bounds::new(d).wall(Duration::from_secs(if tier == "quick" { 60 } else { 600 }));
         sched::run_into(&s, &b, report);
@@ -297,12 +346,13 @@ pub fn replay(w: &serde_json::Value, tier: &str) -> String {
                 return search::replay(&m, &path).0.join("\n");
             }
         }
-        for (n, cfg, _) in t2_cfgs(t) {
+        for (n, cfg, _, lazy_reader) in t2_cfgs(t) {
             if n == name {
                 let s = T2 {
                     cfg,
                     name: n,
                     max_rto: 8,
+                    lazy_reader,
                 };
                 let ch: Vec<u16> = w["choices"]
                     .as_array()
